@@ -112,8 +112,12 @@ void c12(Tape& t, Ctx& ctx) {
     VCHECK(ctx, same_out(serial, o), "default-executor", who << ": evaluate without an executor argument differs from SerialExecutor: " << diff_out(serial, o));
   }
   int nsched = 0;
+  // every other schedule runs on ONE workspace that the previous schedules already used ("the same calls made one after another" on a
+  // caller's workspace): what an earlier evaluation left behind must not show in a later one, whatever the schedule
+  typename OptD::Workspace wreuse;
   auto try_schedule = [&](const ScheduleExec& ex, const std::string& name) -> bool {
-    typename OptD::Workspace w;
+    typename OptD::Workspace wfresh;
+    typename OptD::Workspace& w = (nsched % 2 == 1) ? wreuse : wfresh;
     EvalOut o = run_eval(opt, x, costs, w, ex);
     ++nsched;
     if (!same_out(serial, o)) {
